@@ -829,7 +829,11 @@ func run(c *Case) (*Result, error) {
 			for _, k := range known {
 				kc := k
 				rk := cp.real(&kc)
-				for n := uint64(0); n < 40; n++ {
+				top := db.GetNonce(rk) // a surviving CREATE used a nonce below the creator's current one
+				if top > 5000 {
+					top = 5000
+				}
+				for n := uint64(0); n < top; n++ {
 					if crypto.CreateAddress(rk, n) == a {
 						know(Addr{K: "c", S: &kc, Nonce: n})
 						progress = true
@@ -1551,6 +1555,10 @@ func genCmd(seed uint64, n int, outDir, corpusDir string) {
 		rs, err := run(c)
 		if err != nil {
 			res.Count("skipped: " + err.Error())
+			if os.Getenv("C16_DEBUG") != "" {
+				b, _ := json.Marshal(c)
+				fmt.Fprintln(os.Stderr, "SKIPPED", err, string(b))
+			}
 			return
 		}
 		if count > 0 {
@@ -1606,20 +1614,35 @@ func genCmd(seed uint64, n int, outDir, corpusDir string) {
 	}
 	for count < n {
 		var c *Case
-		switch x := r.Intn(100); {
-		case x < 40:
-			c = chainCase(r)
-		case x < 52:
-			c = staticCase(r)
-		case x < 64:
-			c = createCase(r)
-		default:
-			c = newCase(r)
+		func() {
+			defer func() { // a program whose nested codes outgrow PUSH2 offsets: drop it
+				if rec := recover(); rec != nil {
+					c = nil
+					res.Count(fmt.Sprintf("generator dropped: %v", rec))
+				}
+			}()
+			switch x := r.Intn(100); {
+			case x < 40:
+				c = chainCase(r)
+			case x < 52:
+				c = staticCase(r)
+			case x < 64:
+				c = createCase(r)
+			default:
+				c = newCase(r)
+			}
+		}()
+		if c == nil {
+			continue
 		}
 		// measure, then choose the gas allotment
 		rs, err := run(c)
 		if err != nil {
 			res.Count("skipped: " + err.Error())
+			if os.Getenv("C16_DEBUG") != "" {
+				b, _ := json.Marshal(c)
+				fmt.Fprintln(os.Stderr, "SKIPPED", err, string(b))
+			}
 			continue
 		}
 		used := c.Gas - rs.Gas
